@@ -320,7 +320,7 @@ def judge(opname, fixture, plan, out, pid, clean_value, acc):
             # every process has at least one thread: an empty list is not a well-formed answer (it is what is left when
             # the last thread's record could not be read and nothing re-checked that the process is still there)
             viols.append(("malformed_value:threads:empty_list", desc + f" clean={str(clean_value)[:120]}"))
-        elif (clean_value is not None and opname in COLLECTORS and fired_actions == ["vanish"] and own_targets
+        elif (clean_value is not None and opname in COLLECTORS and fired_actions in (["vanish"], ["halfvanish"]) and own_targets
               and repr(val) != repr(clean_value)):
             # the per-entry collectors skip entries that vanish and then re-check that the process itself is still there
             # (the hit_enoent bookkeeping named in the property's anchors): a list silently cut short by the death of the
